@@ -430,7 +430,7 @@ def run(ctx):
     env = {'MY_VAR': '42'}
 
     def explore(sc):
-        budget = (110 if quick else 1200) if sc.modelled else (80 if quick else 800)
+        budget = (220 if quick else 2000) if sc.modelled else (120 if quick else 1200)
         if len(sc.threads) > 2:
             budget = int(budget * 1.25)
         p = {'op': 'explore' if hook_ok else 'seq', 'scenario': impl_scenario(sc), 'bound': bound, 'max_runs': budget,
@@ -456,20 +456,25 @@ def run(ctx):
         scn = sc.coq(fx)
         for k, rn in enumerate(res.get('runs', [])):
             if rn.get('status') == 'ok':
-                exprs.append('(show_run %s [%s])' % (scn, ';'.join(str(x) for x in rn['schedule'])))
+                exprs.append('(show_run_c %s [%s])' % (scn, ';'.join(str(x) for x in rn['schedule'])))
                 owners.append((sc, rn))
-    preds = {}
+    preds, codes = {}, {}
     if exprs:
         outs, last = None, None
         for attempt in range(3):   # a coqc killed by the OS on an overloaded machine is retried, not reported
             try:
-                outs = ctx.coq(exprs, imports=['PyStr', 'ConcModel'], tag='runs%d' % attempt)
+                outs = ctx.coq(['show_codes'] + exprs, imports=['PyStr', 'ConcModel'], tag='runs%d' % attempt)
                 break
             except Exception as e:
                 last = e
                 _time.sleep(2 + 5 * attempt)
         if outs is not None:
-            for (sc, rn), o in zip(owners, outs):
+            # the model's own table "yield point name = one-character code" (compact traces)
+            codes = dict(x.split('=') for x in outs[0].split(','))
+            if len(set(codes.values())) != len(codes) or any(len(c) != 1 for c in codes.values()):
+                ctx.broken_tie('ConcModel.yp_code is not injective', outs[0])
+                codes = {}
+            for (sc, rn), o in zip(owners, outs[1:]):
                 preds[id(rn)] = o
         else:  # model no longer evaluates: broken tie, predicates below still run
             ctx.broken_tie('ConcModel.show_run no longer evaluates', str(last)[-1500:])
@@ -520,9 +525,9 @@ def run(ctx):
                     else:
                         ctx.hist('further_violating_schedules:' + sc.name, 1)
             # (b) model prediction for the same schedule
-            if id(rn) in preds:
+            if id(rn) in preds and codes:
                 ctx.traces_validated += 1
-                itrace = ','.join('%d.%s' % (t, n) for t, n in rn['trace'])
+                itrace = ''.join('%d%s' % (t, codes.get(n, '?' + n + '?')) for t, n in rn['trace'])
                 iout = '|'.join('+'.join(row) for row in tags)
                 mtrace, _, mout = preds[id(rn)].partition(';')
                 if itrace != mtrace or iout != mout:
@@ -554,7 +559,7 @@ def run(ctx):
     # ---- supplementary: real threads, tiny switch interval -------------------------------------------
     stress = [sc for sc in scs if sc.name in ('plain load||load', 'plain dump||load', 'hook scan cold dump||dump',
                                              'paths dump||load', 'env instantiate||instantiate', 'v1 plain load||load')]
-    iters = 25 if quick else 300
+    iters = 40 if quick else 300
 
     def do_stress(sc):
         return ctx.impl('c20', {'op': 'stress', 'scenario': impl_scenario(sc), 'iters': iters, 'switch': 1e-6},
